@@ -268,6 +268,16 @@ func (c *Ctx) exec(s ast.Stmt, st *State) Flow {
 			}
 		}
 	}
+	if sw, ok := s.(*ast.SwitchStmt); ok && sw.Tag != nil && sw.Init == nil {
+		// `switch <tag>`: the assertion is about the state in which the tag is evaluated
+		before = true
+		txt := "switch " + types.ExprString(sw.Tag)
+		for _, a := range c.spec.Asserts {
+			if strings.Contains(txt, a.At) {
+				hits = append(hits, a)
+			}
+		}
+	}
 	emit := func(at *State) {
 		for _, a := range hits {
 			c.assertSeen[a] = true
